@@ -67,6 +67,18 @@ def make_world():
                         w.removed[id(sm.systems[act[1]])] = len(w.log)
                         w.reg = [r for r in w.reg if r.id != act[1]]
                         sm.remove_system(act[1])
+                elif act[0] == 'replace' and (len(act) == 3 or act[3] == t):
+                    # remove a registered system and register a *new object* under the same id
+                    sid, prio = act[1], act[2]
+                    if sid in sm.systems and sm.systems[sid] is not self:
+                        w.removed[id(sm.systems[sid])] = len(w.log)
+                        w.reg = [r for r in w.reg if r.id != sid]
+                        sm.remove_system(sid)
+                        s = Scripted(sid, self.model, prio, world=w)
+                        sm.add_system(s)
+                        w.added.add(id(s))
+                        w.reg.append(Rec(s, sid, prio, 1, 0, BIG, w.stamp, []))
+                        w.stamp += 1
                 elif act[0] == 'add' and (len(act) == 3 or act[3] == t):
                     sid, prio = act[1], act[2]
                     if sid not in sm.systems:
@@ -102,7 +114,7 @@ def run_history(ops, props=('C01', 'C02', 'C05', 'C06')):
     m = w.model
     sm = m.systems
     out = []
-    w.dynamic = any(op[0] == 'add' and any(a[0] in ('add', 'remove') for a in op[6]) for op in ops)
+    w.dynamic = any(op[0] == 'add' and any(a[0] in ('add', 'remove', 'replace') for a in op[6]) for op in ops)
     dyn = 'C05' if w.dynamic else None
     for op in ops:
         kind = op[0]
@@ -269,6 +281,12 @@ def dynamic_histories():
         for prio in (-1, 0, 5):
             ops = [('add', f's{k}', 0, 1, 0, None, [('add', 'new', prio, 1)] if k == pos else []) for k in range(3)]
             yield ops + [('step', 3)]
+    for pos in range(3):
+        for target in range(3):
+            for prio in (0, 1):
+                ops = [('add', f's{k}', 0, 1, 0, None, [('replace', f's{target}', prio, 1)] if k == pos else [])
+                       for k in range(3)]
+                yield ops + [('step', 3)]
     for pa, pb, pc in itertools.product([0, 1], repeat=3):
         yield [('add', 'a', pa, 1, 0, None, [('remove', 'a', 0)]), ('add', 'b', pb, 1, 0, None, []),
                ('add', 'c', pc, 1, 0, None, [('add', 'n', 2, 0)]), ('step', 2)]
@@ -284,7 +302,10 @@ def random_history(rng, dynamic=False):
             if rng.random() < 0.12:
                 script.append(('complete', rng.randint(0, 6)))
             if dynamic and rng.random() < 0.4:
-                if rng.random() < 0.5:
+                rr = rng.random()
+                if rr < 0.25:
+                    script.append(('replace', rng.choice(ids), rng.randint(-1, 2), rng.randint(0, 4)))
+                elif rr < 0.5:
                     script.append(('remove', rng.choice(ids), rng.randint(0, 4)))
                 else:
                     script.append(('add', 'n%d' % rng.randint(0, 2), rng.randint(-2, 3), rng.randint(0, 4)))
